@@ -10,6 +10,7 @@
 #include "nanocore_export.h"
 #include <unistd.h>  /* For getpid() on all POSIX systems */
 #include <limits.h>  /* For PATH_MAX */
+#include <sys/stat.h> /* For lstat() */
 
 #ifdef __APPLE__
 #include <mach-o/loader.h>
@@ -19,6 +20,16 @@
 /* Global argc/argv for runtime access by transpiled programs */
 int g_argc = 0;
 char **g_argv = NULL;
+
+/* A compilation that is refused must not leave an executable from an earlier build at the
+ * output path (a stale binary would look like the result of this compilation).  Only a regular
+ * file is removed: never a directory, a device such as /dev/null, or the target of a symlink. */
+static void remove_stale_output(const char *output_file) {
+    struct stat st;
+    if (output_file && lstat(output_file, &st) == 0 && S_ISREG(st.st_mode)) {
+        (void)unlink(output_file);
+    }
+}
 
 /* Compilation options */
 typedef struct {
@@ -557,6 +568,7 @@ static int compile_file(const char *input_file, const char *output_file, Compile
     }
     if (!run_shadow_tests(program, env, opts->verbose)) {
         fprintf(stderr, "Shadow tests failed\n");
+        remove_stale_output(output_file);
         diags_push_simple(diags, CompilerPhase_PHASE_RUNTIME, DiagnosticSeverity_DIAG_ERROR, "CSHADOW01", "Shadow tests failed");
         free_ast(program);
         free_tokens(tokens, token_count);
